@@ -32,7 +32,7 @@ INV_PROPS = {
 }
 SAFETY = ("AnnounceOK ClosestFinal NoAnnounceDisabled DeliverAtMostOnce DeliverOnlyResponses NoLoss AbandOnlyStopping "
           "ReadersGetAll PeersClosedLast FinishedAfterAnn")
-CLAUSES = ["args", "tok", "dst", "stopped", "once", "right", "owed", "order"]
+CLAUSES = ["args", "tok", "dst", "stopped", "once", "right", "owed", "order", "deliver"]
 CLAUSE_TEXT = {
     "args": "announce_peer does not carry the announced infohash / the configured port / implied_port",
     "tok": "announce_peer carries a token other than the one this very node returned in this traversal",
@@ -41,6 +41,7 @@ CLAUSE_TEXT = {
     "once": "a PeersValues was delivered that no pending response accounts for (delivered twice, or never received)",
     "right": "a delivered PeersValues does not carry the responder's address and ID",
     "owed": "a get_peers response received while the consumer reads and nobody stopped the announce was not delivered",
+    "deliver": "a get_peers response that was waiting for the consumer was dropped instead of delivered although nobody had stopped the announce",
     "order": "Finished() / close(Peers) out of order (Peers closed before peerAnnounced, or End without both)",
 }
 HANG_KEY = "hang:Announce.Close:consumer-not-reading"
@@ -186,6 +187,7 @@ def validate(path, wd, tag):
         kind = (json.loads(line).get("e") if line else "") or ""
         first = {"AnnounceSent": ["tok", "dst", "args", "stopped"], "PeersDelivered": ["once", "right"],
                  "Finished": ["order", "owed"], "PeersClosed": ["order", "owed"], "End": ["order", "owed"]}.get(kind, ["owed"])
+        first = first + ["deliver"]
         order = first + [c for c in CLAUSES if c not in first]
         for off in [[c] for c in order] + [["args", "tok", "dst"], ["stopped", "dst", "tok"], CLAUSES]:
             r2 = vlib.tlc("Trace_Announce", trace_cfg(off), workers=1, timeout=300, files={"trace.ndjson": sp})
@@ -330,7 +332,7 @@ def run(prop, tier, seed, replay=None):
             first = clause.split("+")[0]
             text = CLAUSE_TEXT.get(first, "several clauses of the property at once")
             ev = json.loads(line) if line else {}
-            key = "%s:%s" % ("announce" if first in ("args", "tok", "dst", "stopped") else "peers" if first in ("once", "right", "owed") else "finish", clause)
+            key = "%s:%s" % ("announce" if first in ("args", "tok", "dst", "stopped") else "peers" if first in ("once", "right", "owed", "deliver") else "finish", clause)
             if key in seen_keys:
                 continue  # one replay per kind of violation
             seen_keys.add(key)
